@@ -4,7 +4,7 @@
    specification-side table: metamodel attribute -> member name of the mapping, kind, metamodel constraints.
    [pm] decides `pattern` facets (pattern id -> string -> bool); every theorem holds for every [pm]. *)
 From Coq Require Import List Bool String NArith.
-From Basyx Require Import model.Codec model.CodecSpec model.SchemaBase model.Schema proofs.SchemaProofs
+From Basyx Require Import model.Codec model.CodecSpec model.SchemaBase model.Schema proofs.CodecProofs proofs.SchemaProofs
   gen.Gen_JsonRules gen.Gen_Schema.
 Import ListNotations.
 Local Open Scope string_scope.
@@ -17,19 +17,19 @@ Local Open Scope string_scope.
    metamodel) is accepted by the schema validator - whether or not members outside the schema are tolerated
    ([closed]): names, nesting, required members, enum literals, array cardinalities, length and pattern facets. *)
 Theorem C05_write_json_generic :
-  forall pm (T : tables) (S : jschema) (SM : smeta) (TR : list triple) (lt : string -> bool) (closed : bool),
-    conforms T S SM TR = true ->
+  forall pm (T : tables) (S : jschema) (SM : smeta) (TR : list triple) (XN : table) (lt : string -> bool) (closed : bool),
+    conforms T S SM TR XN = true ->
     forall v k ne0 e t,
-      swf pm SM k v = true -> tyconf T S TR k ne0 e t = true -> (ne0 = true -> v <> VList []) ->
+      swf pm SM k v = true -> tyconf T S TR XN k ne0 e t = true -> (ne0 = true -> v <> VList []) ->
       jvalid pm S closed t (enc_with (enc_auto T lt false) e v) = true.
 Proof. exact write_valid. Qed.
 
 (* The finite check over the whole generated tables: every class reachable from the environment's three lists,
    every attribute, every constant, every required member of the schema. *)
-Theorem C05_json_conforms : conforms json_tables json_schema json_smeta json_triples = true.
+Theorem C05_json_conforms : conforms json_tables json_schema json_smeta json_triples spec_xsd_names = true.
 Proof. vm_compute. reflexivity. Qed.
 
-Theorem C05_json_no_nonconforming_row : nonconforming json_tables json_schema json_smeta json_triples = [].
+Theorem C05_json_no_nonconforming_row : nonconforming json_tables json_schema json_smeta json_triples spec_xsd_names = [].
 Proof. vm_compute. reflexivity. Qed.
 
 Theorem C05_json_env_ok : env_ok json_schema json_triples json_root json_tops = true.
@@ -43,7 +43,7 @@ Theorem C05_write_json_object :
     jvalid pm json_schema closed (SObj scls) (enc_auto json_tables lt false v) = true.
 Proof.
   intros pm lt closed cls scls v.
-  exact (write_object pm json_tables json_schema json_smeta json_triples lt closed C05_json_conforms cls scls v).
+  exact (write_object pm json_tables json_schema json_smeta json_triples spec_xsd_names lt closed C05_json_conforms cls scls v).
 Qed.
 
 (* ... and every environment document written for a store of well-formed identifiables validates against the
@@ -57,7 +57,7 @@ Theorem C05_write_json_store_partial :
     jvalid pm json_schema closed (SObj json_root) (env_doc json_tables lt json_tops objs) = true.
 Proof.
   intros pm lt closed objs.
-  exact (write_env pm json_tables json_schema json_smeta json_triples lt closed C05_json_conforms
+  exact (write_env pm json_tables json_schema json_smeta json_triples spec_xsd_names lt closed C05_json_conforms
                    json_root json_tops objs C05_json_env_ok).
 Qed.
 
@@ -85,7 +85,7 @@ Definition swap_first_second (T : tables) : tables :=
                                  (c_r (snd p)))
                 else p) T.
 Example C05_conforms_rejects_swapped_members :
-  conforms (swap_first_second json_tables) json_schema json_smeta json_triples = false.
+  conforms (swap_first_second json_tables) json_schema json_smeta json_triples spec_xsd_names = false.
 Proof. vm_compute. reflexivity. Qed.
 
 Definition always_emit (cls attr : string) (T : tables) : tables :=
@@ -96,7 +96,69 @@ Definition always_emit (cls attr : string) (T : tables) : tables :=
                                  (c_r (snd p)))
                 else p) T.
 Example C05_conforms_rejects_null_member :
-  conforms (always_emit "Property" "value_id" json_tables) json_schema json_smeta json_triples = false.
+  conforms (always_emit "Property" "value_id" json_tables) json_schema json_smeta json_triples spec_xsd_names = false.
+Proof. vm_compute. reflexivity. Qed.
+
+(* a writer whose enum table swaps two literals of one enumeration (a change the reader's inverse table follows, so
+   every round-trip test stays green) is rejected: the mapping spells a member like its name *)
+Definition swap_direction (T : tables) : tables :=
+  map (fun p => if String.eqb (fst p) "BasicEventElement"
+                then (fst p, mkC (c_consts (snd p))
+                                 (map (fun w => if String.eqb (w_attr w) "direction"
+                                                then mkW (w_member w) (w_attr w) (w_cond w) (EEnum [("INPUT", "output"); ("OUTPUT", "input")]) (w_unstripped_only w)
+                                                else w) (c_w (snd p)))
+                                 (c_r (snd p)))
+                else p) T.
+Example C05_conforms_rejects_swapped_literals :
+  conforms (swap_direction json_tables) json_schema json_smeta json_triples spec_xsd_names = false.
+Proof. vm_compute. reflexivity. Qed.
+
+(* ---------- reading, JSON ---------- *)
+(* The mapping as WRITER rule tables (spec_w_min: attributes holding their metamodel default are left out where the
+   rule language can say so; spec_w_explicit: they are written), derived by tools/py2coq/schemas.py from the schema
+   tables, the metamodel attribute table and the mapping names - not from the SDK's writer - combined with the READER
+   rules and dispatch constants of the adapter under test. *)
+Definition json_spec_min : tables := mix spec_w_min json_tables.
+Definition json_spec_explicit : tables := mix spec_w_explicit json_tables.
+
+Theorem C05_spec_tables_use_sdk_reader :
+  map (fun p => (fst p, c_r (snd p))) json_spec_min = map (fun p => (fst p, c_r (snd p))) json_tables /\
+  map (fun p => (fst p, c_r (snd p))) json_spec_explicit = map (fun p => (fst p, c_r (snd p))) json_tables /\
+  same_consts spec_w_min json_tables = true /\ same_consts spec_w_explicit json_tables = true.
+Proof. vm_compute. repeat split; reflexivity. Qed.
+
+(* the documents the mapping prescribes are schema-valid (so they are in the scope of the reading statement) ... *)
+Theorem C05_spec_documents_conform :
+  conforms json_spec_min json_schema json_smeta json_triples spec_xsd_names = true /\
+  conforms json_spec_explicit json_schema json_smeta json_triples spec_xsd_names = true.
+Proof. vm_compute. split; reflexivity. Qed.
+
+(* ... and the reader rules under test are compatible with them (C03's predicate, over the whole tables) *)
+Theorem C05_read_json_compat :
+  compat json_spec_min json_meta = true /\ compat json_spec_explicit json_meta = true.
+Proof. vm_compute. split; reflexivity. Qed.
+
+(* Hence: every document the mapping prescribes for a well-formed value - with or without explicit defaults - is
+   accepted by the interpreted reader rules of the current JSON adapter and yields exactly that value. *)
+Theorem C05_read_json_partial :
+  forall (lt : string -> bool) (cls : string) (v : value),
+    wfb json_meta (BObj [cls]) v = true -> deps_ok json_spec_min v = true ->
+    dec json_spec_min json_meta false (DcObj cls) (enc_auto json_spec_min lt false v) = Some v /\
+    dec json_spec_explicit json_meta false (DcObj cls) (enc_auto json_spec_explicit lt false v) = Some v.
+Proof.
+  intros lt cls v Hwf Hdeps. split.
+  - exact (roundtrip json_spec_min json_meta lt (proj1 C05_read_json_compat) v (BObj [cls]) EAuto (DcObj cls) Hwf Hdeps
+                     (String.eqb_refl cls)).
+  - exact (roundtrip json_spec_explicit json_meta lt (proj2 C05_read_json_compat) v (BObj [cls]) EAuto (DcObj cls) Hwf
+                     Hdeps (String.eqb_refl cls)).
+Qed.
+
+(* What C05_read_json_partial does not reach, because no value of the SDK's universe stands for it: literals of a
+   schema enumeration that the reader's table does not know.  On the current tree exactly two: the strict readers
+   reject the key types Identifiable and Referable (replayed on the SDK by tools/c05.py, known finding). *)
+Theorem C05_read_enum_literals_refuted :
+  unread_literals json_tables json_schema json_smeta json_triples =
+  [("Key", "type", "Identifiable"); ("Key", "type", "Referable")].
 Proof. vm_compute. reflexivity. Qed.
 
 (* Non-vacuity: a submodel with a nested property, a qualifier and a display name meets the hypotheses, and its
@@ -118,6 +180,13 @@ Definition ex_submodel := VObj "Submodel"
    ("embedded_data_specifications", VList []); ("semantic_id", VNone); ("supplemental_semantic_id", VList []);
    ("qualifier", VList []); ("id", VStr "urn:sm"); ("administration", VNone); ("kind", VStr "INSTANCE");
    ("submodel_element", VList [ex_prop])].
+Example C05_read_example :
+  wfb json_meta (BObj ["Submodel"]) ex_submodel = true /\ deps_ok json_spec_min ex_submodel = true /\
+  jvalid ex_pm json_schema true (SObj "Submodel") (enc_auto json_spec_explicit (fun _ => false) false ex_submodel) = true /\
+  dec json_spec_explicit json_meta false (DcObj "Submodel")
+      (enc_auto json_spec_explicit (fun _ => false) false ex_submodel) = Some ex_submodel.
+Proof. vm_compute. repeat split; reflexivity. Qed.
+
 Example C05_example :
   swf ex_pm json_smeta (KObj ["Submodel"] "") ex_submodel = true /\
   tmem3 ("Submodel", "", "Submodel") json_triples = true /\
